@@ -108,6 +108,15 @@ class NP:
         k = max(ks, key=order.index)
         return _DType({"bool": "bool", "int": "int64", "float": "float64", "complex": "complex128"}[k], k)
 
+    def logical_and(self, a, b):
+        return self.asarray(a) & self.asarray(b) if isinstance(a, Arr) or isinstance(b, Arr) else sbool(a) & sbool(b)
+
+    def logical_or(self, a, b):
+        return self.asarray(a) | self.asarray(b) if isinstance(a, Arr) or isinstance(b, Arr) else sbool(a) | sbool(b)
+
+    def logical_not(self, a):
+        return ~self.asarray(a) if isinstance(a, Arr) else ~sbool(a)
+
     def empty(self, shape, dtype=None):
         # uninitialised contents: a fresh array (nothing is known about the values)
         k = _kind(dtype)
